@@ -39,7 +39,8 @@ man = {
     'not_applicable': na,
     'notes': 'VERIF_REPO selects the tree (default /repo); VERIF_SEED seeds the random part of every generator; known_findings.json lists genuine defects of the unchanged tree by predicate + witness.',
 }
-json.dump(man, open(os.path.join(ROOT, 'MANIFEST.json'), 'w'), indent=1)
+if '--known-only' not in sys.argv:
+    json.dump(man, open(os.path.join(ROOT, 'MANIFEST.json'), 'w'), indent=1)
 # known findings: fragments known/*.json -> known_findings.json (committed; never written at run time)
 kf = []
 kd = os.path.join(ROOT, 'known')
